@@ -177,6 +177,25 @@ def run(ctx, report):
         got = found.get(k)
         report.check(got == want, "R-TABLE-REF", pfn, f"padding shorthand with {k} value(s)",
                      {"found": got, "required (TTML: before end after start)": want}, "5")
+    # the separator is ONE blank: doubled, leading or trailing blanks and tabs leave an empty or malformed component, which is
+    # rejected like any other malformed size (the real Size.from_string this time)
+    wrong_p = []
+    for text in ("1px  2px", " 1px", "1px 2px ", "1px\t2px", "", " ", "1px 2px 3px 4px 5px", "1px,2px"):
+        try:
+            F0.eval_in("pycaption.geometry", ast.parse("Padding.from_xml_attribute(t)", mode="eval").body, {"t": text})
+            wrong_p.append({"attribute": text, "outcome": "accepted", "required": "rejected"})
+        except _FR0 as e0:
+            if e0.exc_name not in ("CaptionReadSyntaxError", "ValueError"):
+                wrong_p.append({"attribute": text, "outcome": e0.exc_name, "required": "CaptionReadSyntaxError (ValueError for the arity)"})
+        except AnalysisError as e0:
+            raise AnalysisError(f"Padding.from_xml_attribute cannot be folded on {text!r}: {e0}")
+    for text in ("1px", "1px 2%", "1px 2px 3px", "1px 2px 3px 4px"):
+        try:
+            F0.eval_in("pycaption.geometry", ast.parse("Padding.from_xml_attribute(t)", mode="eval").body, {"t": text})
+        except _FR0 as e0:
+            wrong_p.append({"attribute": text, "outcome": e0.exc_name, "required": "accepted"})
+    report.check(not wrong_p, "R-MUSTRAISE", pfn, "a padding attribute is one to four sizes separated by single blanks: anything else "
+                 "(doubled, leading, trailing blanks, tabs, commas, five sizes) is rejected", {"mismatches": wrong_p[:4]}, "5")
     # anything else raises
     has_else_raise = any(isinstance(n, ast.Raise) for n in walk_no_nested(pfn.node))
     report.check(has_else_raise, "R-MUSTRAISE", pfn, "other arities are refused", None, "5")
